@@ -421,6 +421,8 @@ func finalScenario(prop string, seed uint64, idx int) *Scenario {
 		return c16Scenario(seed, idx)
 	case "C02", "C07":
 		return tillCollisionScenario(prop, seed, idx)
+	case "C15", "C06":
+		return withFreshReference(GenScenario(prop, seed, idx))
 	}
 	return GenScenario(prop, seed, idx)
 }
